@@ -168,6 +168,13 @@ pub fn children() -> Vec<(&'static str, H)> {
         ("negation", H::Neg(hb(v("c")))),
         ("double-negation", H::Neg(hb(H::Neg(hb(H::lit(2)))))),
         ("if", H::If(hb(H::True), hb(H::lit(1)), hb(v("c")))),
+        // children that mention the parent's binder `p` in one place only (unparseable, hence
+        // skipped, under parents that bind nothing)
+        ("let-annotation-mentions-parent-binder", H::Let("q".into(), Some(hb(H::If(hb(H::True), hb(H::Int), hb(v("p"))))), hb(H::lit(1)), hb(H::Int))),
+        ("let-definition-mentions-parent-binder", H::Let("q".into(), Some(hb(H::Type)), hb(v("p")), hb(H::Int))),
+        ("lambda-domain-mentions-parent-binder", lam("q", false, Some(v("p")), H::lit(1))),
+        ("pi-domain-mentions-parent-binder", pi("q", false, v("p"), H::Int)),
+        ("hole-and-parent-binder", H::App(hb(v("_")), hb(v("p")))),
     ];
     for op in ALL_OPS {
         let name: &'static str = match op {
@@ -247,7 +254,7 @@ impl Prop for C16P {
         let cells = (parents().len() * children().len()) as u64;
         let mut p = Plan::new(
             vec![sec("pinned", 160), sec_ex("former-position-former-matrix", cells), sec("random-programs", tier.pick(25_000, 500_000))],
-            "every one of 41 (parent former, operand position) slots filled with every one of 38 child formers (3 fillers each; implicit and placeholder binders, used and unused parameters, holes, groups of 1-2 definitions), then random well-scoped programs over the full syntax and the corpus; each is parsed, printed with gram's Display and read back in the same scope; non-trivial = distinct printed text",
+            "every one of 41 (parent former, operand position) slots filled with every one of 43 child formers (3 fillers each; implicit and placeholder binders, used and unused parameters, holes, groups of 1-2 definitions), then random well-scoped programs over the full syntax and the corpus; each is parsed, printed with gram's Display and read back in the same scope; non-trivial = distinct printed text",
         );
         p.assumptions = vec![
             "holes are compared by position only (an omitted annotation prints as `_`), names of unused function-type parameters are ignored, everything else must be identical including indices, implicit flags, literals and grouping".into(),
